@@ -279,7 +279,7 @@ def _diff_directive_arguments(
                 yield DirectiveArgumentChangedType(
                     old_directive, old_arg, new_arg
                 )
-            elif (
+            if (
                 (old_arg.has_default_value and not new_arg.has_default_value)
                 or (not old_arg.has_default_value and new_arg.has_default_value)
                 or (
@@ -313,7 +313,7 @@ def _diff_field_arguments(
                 yield FieldArgumentChangedType(
                     parent, old_field, old_arg, new_arg
                 )
-            elif (
+            if (
                 (old_arg.has_default_value and not new_arg.has_default_value)
                 or (not old_arg.has_default_value and new_arg.has_default_value)
                 or (
@@ -457,7 +457,7 @@ def _diff_input_types(old: Schema, new: Schema) -> Iterator[SchemaChange]:
                     old_field.type, new_field.type
                 ):
                     yield InputFieldChangedType(old_type, old_field, new_field)
-                elif (
+                if (
                     (
                         old_field.has_default_value
                         and not new_field.has_default_value
